@@ -22,6 +22,7 @@ theorem cacheableError : (Facts.cacheableErrorLo, Facts.cacheableErrorHi) = (400
 theorem headersAllowedIn304 : Facts.headersAllowedIn304 = Spec.headersAllowedIn304 := by rfl
 theorem redirectStatuses : Facts.redirectStatuses = Spec.redirectStatuses := by rfl
 theorem waitSeconds : Facts.waitSeconds = [30, 10, 5] := by rfl
+theorem maxRedirects : Facts.maxRedirects = Spec.maxRedirects := by rfl
 theorem effectsClose : Facts.effectsClose = Spec.effectsClose := by rfl
 theorem effectsWriteHeader : Facts.effectsWriteHeader = Spec.effectsWriteHeader := by rfl
 theorem effectsWrite : Facts.effectsWrite = Spec.effectsWrite := by rfl
